@@ -192,6 +192,37 @@ fn data_movement_program(rng: &mut Rng) -> String {
     }
 }
 
+/// Programs that compute the same thing twice (two loops over the same join, the same call, the same
+/// arithmetic): with de-duplication on the second copy must not add AND gates with operand pairs that
+/// exist already.
+fn repeated_program(rng: &mut Rng) -> String {
+    let n = 1 + rng.usize_below(4);
+    let m = 1 + rng.usize_below(4);
+    let kt = *rng.pick(&["u8", "u16", "u32"]);
+    let bodies = ["s = s ^ x.1 ^ y.1;", "s = s + x.1;", "s = (s << 1u8) ^ y.1;", "if x.1 > y.1 { s = s ^ x.1; }"];
+    let (b1, b2) = (*rng.pick(&bodies), *rng.pick(&bodies));
+    let ops = ["x * y", "x / y", "x + y", "x - y", "x % y", "(x * y) + (x / y)", "if x > y { x - y } else { y - x }", "(x & y) + (x ^ y)"];
+    match rng.below(5) {
+        0 => format!(
+            "pub fn main(a: [({kt}, u16); {n}], b: [({kt}, u16); {m}]) -> (u16, u16) {{\n    let mut s = 0u16;\n    for (x, y) in join_iter(a, b) {{ {b1} }}\n    let s1 = s;\n    let mut s = 0u16;\n    for (x, y) in join_iter(a, b) {{ {b2} }}\n    (s1, s)\n}}\n"
+        ),
+        1 => format!(
+            "pub fn main(a: [{kt}; {n}], b: [{kt}; {m}]) -> ([(bool, {kt}); const {{ {n}usize + {m}usize - 1usize }}], [(bool, {kt}); const {{ {n}usize + {m}usize - 1usize }}]) {{\n    let j1 = join(a, b);\n    let j2 = join(a, b);\n    (j1, j2)\n}}\n"
+        ),
+        2 => format!(
+            "pub fn main(a: [({kt}, u16); {n}], b: [({kt}, u16); {m}]) -> u16 {{\n    let mut s = 0u16;\n    for (x, y) in join_iter(a, b) {{ {b1} }}\n    for r in join(a, b) {{ if r.0 {{ s = s ^ 1u16; }} }}\n    s\n}}\n"
+        ),
+        3 => {
+            let op = *rng.pick(&ops);
+            format!("fn f(x: {kt}, y: {kt}) -> {kt} {{ {op} }}\npub fn main(x: {kt}, y: {kt}, c: bool) -> ({kt}, {kt}) {{\n    let r1 = f(x, y);\n    let r2 = if c {{ f(x, y) }} else {{ f(y, x) }};\n    (r1, r2)\n}}\n")
+        }
+        _ => {
+            let (o1, o2) = (*rng.pick(&ops), *rng.pick(&ops));
+            format!("pub fn main(x: {kt}, y: {kt}) -> ({kt}, {kt}, {kt}) {{\n    let r1 = ({o1}) ^ ({o2});\n    let r2 = ({o2}) ^ ({o1});\n    let r3 = {{ let x = x; {o1} }};\n    (r1, r2, r3)\n}}\n")
+        }
+    }
+}
+
 pub fn run(ctx: &Ctx) -> i32 {
     let mut programs: Vec<(String, String)> = corpus::load();
     programs.extend(super::c04_op_programs().into_iter().enumerate().map(|(i, p)| (format!("op-program-{i}"), p)));
@@ -242,6 +273,29 @@ pub fn run(ctx: &Ctx) -> i32 {
                         if let Err(e) = check_structure(c, dedup, &mut counts) {
                             ctx.violation(&format!("generated program (dedup={dedup}): {e}"), json!({"kind": "program", "program": pr.src, "dedup": dedup, "problem": e}));
                         }
+                    }
+                }
+                continue;
+            }
+            if turn % 4 == 1 {
+                let src = repeated_program(&mut rng);
+                for dedup in [true, false] {
+                    match gl::compile(&src, dedup, false) {
+                        CompileOutcome::Ok(p) => {
+                            n += 1;
+                            counts.inc("repeated_computation_circuits");
+                            distinct.insert(crate::util::fnv(format!("{dedup}{src}").as_bytes()));
+                            if let Err(e) = check_structure(gl::ssa(&p), dedup, &mut counts) {
+                                ctx.violation(&format!("program that computes the same thing twice (dedup={dedup}): {e}"), json!({"kind": "program", "program": src, "dedup": dedup, "problem": e}));
+                            }
+                        }
+                        CompileOutcome::Rejected(k, m) => {
+                            counts.inc("repeated_computation_programs_rejected");
+                            if counts.get("repeated_computation_programs_rejected") <= 1 {
+                                ctx.inconclusive(&format!("repeated-computation program rejected ({k}): {src}\n{}", m.chars().take(300).collect::<String>()));
+                            }
+                        }
+                        CompileOutcome::Crashed(m) => ctx.violation(&format!("compiler crashed on a repeated-computation program: {m}"), json!({"kind": "program", "program": src})),
                     }
                 }
                 continue;
